@@ -5,7 +5,7 @@ import NetVerif.Model.HttpProxy
    fact: `C:<key>:<ip>:<ones>:<bits>` | `S:<key>:<host>:<port>` | `I:<key>:<ip>` | `A:<key>:<out>`
    (tabulated results of net.ParseCIDR / net.SplitHostPort / net.ParseIP / idna.Lookup.ToASCII; absent = error)
    hpfact/spfact: `n` (nil URL) | `u:<hex of URL.String()>`
-`req <mode> <raw1> <raw2> <scheme> <addrOk> <host> <port> <ip|n>`
+`req <mode> <raw1> <raw2> <scheme> <host> <port> <ip|n>`
 -/
 open NetVerif.Driver NetVerif.Model.NetIP NetVerif.Model.HttpProxy
 
@@ -71,20 +71,20 @@ def step (st : Option Cfg) (line : String) : Option Cfg × String :=
       let c := init t.oracles cgi hp sp np
       (some c, s!"ok {showMatchers c.ipMatchers} {showMatchers c.domainMatchers}")
     | _, _, _, _, _ => (st, "bad-op")
-  | ["req", _mode, _raw1, _raw2, scheme, addrOk, host, port, ip] =>
+  | ["req", _mode, _raw1, _raw2, scheme, host, port, ip] =>
     match st with
     | none => (st, "bad-op")
     | some c =>
       let ip? : Option (Option (List Nat)) := if ip == "n" then some none else (parseBytes ip).map some
-      match parseBytes scheme, parseBool addrOk, parseBytes host, parseBytes port, ip? with
-      | some scheme, some addrOk, some host, some port, some ip =>
-        let r : Req := { scheme, addrOk, host, port, ip }
+      match parseBytes scheme, parseBytes host, parseBytes port, ip? with
+      | some scheme, some host, some port, some ip =>
+        let r : Req := { scheme, host, port, ip }
         let out := match proxyForURL c r with
           | .noProxy => "ok none"
           | .proxy u => s!"ok proxy {hexOfBytes u}"
           | .errCGI => "err cgi"
         (st, out)
-      | _, _, _, _, _ => (st, "bad-op")
+      | _, _, _, _ => (st, "bad-op")
   | _ => (st, "bad-op")
 
 end NetVerif.Driver.C52
